@@ -13,17 +13,25 @@ Generated/ArrowVersions.lean (property C19): the arrow / arrow2 versions as they
   * serde_arrow/src/lib.rs   `#[cfg(has_arrow_N)] build_arrow_crate!(arrow_array_N, arrow_schema_N);`,
                              `#[cfg(has_arrow2_0_N)] pub use arrow2_0_N as arrow2;`
 The consistency of these lists is a `decide` obligation in lean/SaModel/Props/C19.lean.
+
+Generated/CoerceArms.lean (property C07): see coerce_arms.py — the arms of `coerce_primitive_type` (tracer.rs) as data,
+`TracingOptions::string_type`.  Obligations: lean/SaModel/Props/C07Gen.lean.
+Generated/TypeNames.lean (property C09): see type_names.py — the name tables of `build_data_type`,
+`PrettyFieldDataType`, `is_data_type_with_children`, `Term::as_option`, `Strategy` Display / FromStr.  Obligations:
+lean/SaModel/Props/C09Gen.lean.
+What each parser recognises and refuses: notes/translator.md.
 """
 import os
 import re
 import sys
 import tables2   # Generated/{Annotations,AcceptMatrix,ReaderMatrix}.lean (C18, C05, C02): translator/tables2.py
 
+sys.path.insert(0, os.path.dirname(os.path.abspath(__file__)))
+from rust_lex import Unrecognised  # noqa: E402
+import coerce_arms  # noqa: E402
+import type_names  # noqa: E402
+
 ROOT = os.path.dirname(os.path.dirname(os.path.abspath(__file__)))
-
-
-class Unrecognised(Exception):
-    pass
 
 
 def repo_root():
@@ -282,19 +290,47 @@ def render(repo):
     return "\n".join(out) + "\n"
 
 
-def main():
+# (generated module, properties whose obligations read it, renderer)
+GENERATORS = [
+    ("ArrowVersions", ["C19"], render),
+    ("CoerceArms", ["C07"], coerce_arms.render),
+    ("TypeNames", ["C09"], type_names.render),
+]
+
+
+def main(argv):
+    """run.py [--prop Cxx]: every file is regenerated on every run; the exit status is non-zero when a source
+    shape was not recognised by a generator that serves the given property (by any generator without --prop)"""
+    prop = None
+    if len(argv) >= 2 and argv[0] == "--prop":
+        prop = argv[1]
+    elif argv:
+        print("usage: run.py [--prop Cxx]")
+        return 2
+    rc = 0
     try:
         repo = repo_root()
-        text = render(repo)
-        tables2.run(repo, ROOT, Unrecognised, write_if_changed)
     except Unrecognised as e:
-        print(f"translator: source shape not recognised: {e}")
+        print(f"translator: {e}")
         return 1
-    changed = write_if_changed(os.path.join(ROOT, "lean", "SaModel", "Generated", "ArrowVersions.lean"), text)
-    if changed:
-        print(f"translator: regenerated lean/SaModel/Generated/ArrowVersions.lean from {repo}")
-    return 0
+    tables2.Unrecognised = Unrecognised
+    t2props = {"Annotations.lean": ["C18"], "AcceptMatrix.lean": ["C01", "C05"], "ReaderMatrix.lean": ["C02"]}
+    generators = GENERATORS + [(n[:-5], t2props.get(n, ["C18", "C01", "C05", "C02"]), fn) for n, fn in tables2.TABLES]
+    for name, props, fn in generators:
+        rel = os.path.join("lean", "SaModel", "Generated", name + ".lean")
+        try:
+            text = fn(repo)
+        except Unrecognised as e:
+            concerns = prop is None or prop in props
+            print(f"translator: {rel} ({', '.join(props)}): source shape not recognised: {e}"
+                  + ("" if concerns else f" [does not concern {prop}]"))
+            if concerns:
+                rc = 1
+            continue
+        if write_if_changed(os.path.join(ROOT, rel), text):
+            print(f"translator: regenerated {rel} from {repo}")
+    return rc
 
 
 if __name__ == "__main__":
-    sys.exit(main())
+    sys.exit(main(sys.argv[1:]))
